@@ -8,8 +8,8 @@ static Array_Vec2 c14g_points;
 static void c14g_state(void) {
     VF_IN(u8, IN_np); VF_IN(u8, IN_npoly);
     VF_ASSUME(IN_np <= 2 && IN_npoly <= 2);
+    VF_IN_ARR(IN_px); VF_IN_ARR(IN_py);
     for (int k = 0; k < 2; k++) {
-        VF_IN(double, IN_px[k]); VF_IN(double, IN_py[k]);
         VF_ASSUME(IN_px[k] == IN_px[k] && IN_py[k] == IN_py[k]);
         c14g_pts[k].x = IN_px[k]; c14g_pts[k].y = IN_py[k];
         memset(&c14g_poly[k], 0, sizeof(Polygon));
